@@ -157,10 +157,8 @@ FLAGS = {"pending": 1}
 CONTROLS = {"pause": 1, "resume": 1}
 
 
-def strategy(tier):
+def _strategy(base):
     from hypothesis import strategies as st
-
-    base = gen.scenario(CFG, flags=FLAGS, max_choices=60, controls=CONTROLS)
 
     def add(s, pos, kind, canceled_outcome):
         s = dict(s)
@@ -176,4 +174,15 @@ def strategy(tier):
     return st.builds(add, base, st.integers(1, 14), st.sampled_from(["cancel", "cancel", "cancel2", "pause+cancel", "pause2+cancel", "pause+resume+cancel", "pause+resume+cancel2"]), st.sampled_from([0, 0, 0, 1, 2, 3]))
 
 
-PARTS = [Part("cancel", run, strategy, {"quick": 2400, "thorough": 60000}, rule=RULE)]
+def strategy(tier):
+    return _strategy(gen.scenario(CFG, flags=FLAGS, max_choices=60, controls=CONTROLS))
+
+
+def strat_items(tier):
+    return _strategy(gen.directed_scenario(gen.items_siblings_ir(), flags=FLAGS, controls=CONTROLS, max_choices=60))
+
+
+PARTS = [
+    Part("cancel", run, strategy, {"quick": 2400, "thorough": 60000}, rule=RULE),
+    Part("items-siblings", run, strat_items, {"quick": 1000, "thorough": 30000}, rule="directed: concurrency-limited with-items tasks beside plain tasks, cancel placed anywhere (also right after pause / resume)"),
+]
